@@ -436,16 +436,19 @@ fn check_hooks(g: &GCtx, plain: &Obs, o: &Outcome) -> Result<(), Failure> {
         if h.ty.is_empty() {
             continue;
         }
-        if let Some(oh) = o.hooks.iter().chain(o.hooks_optional.iter()).find(|x| x.name == h.name && x.arg == h.arg) {
-            let rule = &oh.ty;
-            let ok = match g.shapes.kind(rule) {
-                Some(Kind::Struct { .. }) | Some(Kind::Enum { .. }) | Some(Kind::StrPos) => h.ty.ends_with(&format!("::{}", rule)),
-                Some(Kind::Str) => h.ty == "alloc::string::String",
-                _ => true,
-            };
-            if !ok {
-                return Err(fail("check function received a value of another type than the rule's", rule.clone(), h.ty.clone()));
-            }
+        // several rules may call the same function with equally rendered values (e.g. a rule and an alias of it):
+        // the type must fit one of them
+        let cands: Vec<&str> = o.hooks.iter().chain(o.hooks_optional.iter()).filter(|x| x.name == h.name && x.arg == h.arg).map(|x| x.ty.as_str()).collect();
+        if cands.is_empty() {
+            continue;
+        }
+        let fits = |rule: &str| match g.shapes.kind(rule) {
+            Some(Kind::Struct { .. }) | Some(Kind::Enum { .. }) | Some(Kind::StrPos) => h.ty.ends_with(&format!("::{}", rule)),
+            Some(Kind::Str) => h.ty == "alloc::string::String",
+            _ => true,
+        };
+        if !cands.iter().any(|r| fits(r)) {
+            return Err(fail("check function received a value of another type than the rule's", format!("{:?}", cands), h.ty.clone()));
         }
     }
     if g.spec.cfg.user_ctx {
